@@ -25,6 +25,16 @@ Theorem C13_switches_spaced_over_history : forall ops w,
 Proof. exact switches_spaced. Qed.
 Print Assumptions C13_switches_spaced_over_history.
 
+(** To the nanosecond.  The cooldown origin is stored in whole seconds, rounded down; measured on
+    the exact block times (nanoseconds) successive switches — and the first one after an
+    instantiation at [t0] whose second is the stored origin — are still more than 604800 s
+    apart: the rounding can lengthen the wait, never shorten it. *)
+Theorem C13_switches_spaced_to_the_nanosecond : forall ops w t0,
+  times_fit w ops -> seconds t0 = fee_last (fee (market w)) ->
+  spaced_ns t0 (switch_times_ns w ops).
+Proof. exact switches_spaced_ns. Qed.
+Print Assumptions C13_switches_spaced_to_the_nanosecond.
+
 (** Before (and at) the week mark every cycle attempt is refused without effect ... *)
 Theorem C13_cycle_refused_within_week : forall w a fs fail,
   seconds (wnow w) <= sat_add64 (fee_last (fee (market w))) 604800 ->
